@@ -233,7 +233,7 @@ def check(case, ctx):
                         ctx.fail(f'operation {kind}({arg}) modified its argument graph', expected=repr(before)[:300], observed=repr(_snapshot(g))[:300],
                                  case={'t': case['t'], 'depth': case['depth'], 'model': name, 'history': hist + [list(map(str, op))]})
                         return
-                    got = RI.content(g2.triples, g2.top, rm)
+                    got = RI.content(g2.triples, g2.top, rm, deinvert=False)
                     if g2.top != top_expected or got != wants[top_expected]:
                         ctx.fail(f'graph content or top changed by {kind}({arg}{"" if af is None else ", attributes_first=%s" % af}) under {name}',
                                  expected=[top_expected, wants[top_expected]['triples']], observed=[g2.top, got['triples']],
